@@ -139,6 +139,8 @@ class World:
                  max_rounds=20000, debug=None, console=False):
         self.choices = choices
         self.clock = Clock()
+        # the process may have been up for a long time: timers must not depend on small clock values
+        self.clock.now = choices.weighted("cfg.clock0", [(6, 1000.0), (1, 3.0e6), (1, 9.9e7)])
         self.baton = Baton()
         self.net = SimNet(self)
         self.net.set_timecode(timecode)
@@ -150,7 +152,8 @@ class World:
         self.max_rounds = max_rounds
         # MessageManager(debug=...) is a configuration like any other: drawn per run unless given
         self.debug = bool(choices.flag("cfg.mgr_debug", 1, 4)) if debug is None else bool(debug)
-        self.console = console         # keep the rich console log handler (rendering into a buffer)
+        # keep the rich console log handler (rendering into a buffer): always possible, drawn rarely because slow
+        self.console = console or bool(choices.flag("cfg.console_any", 1, 16))
         self.mgr = None
         self.mgr_task: Optional[Task] = None
         self.mgr_state = "new"                  # new | select | recv | running | dead
